@@ -216,6 +216,8 @@ package dns
 //@   ensures tok: ret0.value == 1 ==> len(ret0.token) > 0
 //@ func slurpRemainder [C07]
 //@   requires c != nil
+// an error names the offending token and its position
+//@   exit tok: ret0 != nil ==> same(ret0.lex.token, l.token) && ret0.lex.line == l.line && ret0.lex.column == l.column
 //@   requires lexinv: (c.l.value == 1 ==> len(c.l.token) > 0) && (c.cachedL != nil ==> (c.cachedL.value == 1 ==> len(c.cachedL.token) > 0))
 //@   loop * invariant (c.l.value == 1 ==> len(c.l.token) > 0) && (c.cachedL != nil ==> (c.cachedL.value == 1 ==> len(c.cachedL.token) > 0))
 //@   ensures lexinv: (c.l.value == 1 ==> len(c.l.token) > 0) && (c.cachedL != nil ==> (c.cachedL.value == 1 ==> len(c.cachedL.token) > 0))
